@@ -7,6 +7,8 @@ import (
 	"errors"
 	"fmt"
 	"io"
+	"os"
+	"path/filepath"
 	"sort"
 	"strconv"
 	"strings"
@@ -194,6 +196,10 @@ type Built struct {
 	// Full (http kinds): the entry index when method, path, body and tag of the acquired ammo
 	// are what the file says for that entry (the body is read the way a gun does), else -1000-idx.
 	Full func(a core.Ammo) int
+	// Audit: what the provider did with the handles of its ammo file (nil-safe Summary).
+	Audit *AuditFs
+	// Cleanup removes the scratch directory of an OS cell (never nil after BuildFS).
+	Cleanup func()
 }
 
 // ExpectedHTTP is what the file of a kind says about entry e.
@@ -225,22 +231,51 @@ func Build(kind string, preload bool, limit, passes int, es []Entry, chosen []st
 	return BuildEOF(kind, preload, limit, passes, es, chosen, 0)
 }
 
-// BuildEOF is Build on a file that ends in the given EOF layout.
+// BuildEOF is Build on a file that ends in the given EOF layout (mem file system).
 func BuildEOF(kind string, preload bool, limit, passes int, es []Entry, chosen []string, eof int) (b *Built, err error) {
+	return BuildFS(kind, preload, limit, passes, es, chosen, eof, FsMem)
+}
+
+// BuildFS is BuildEOF on the given kind of file system (FsMem / FsOS). The provider only sees the
+// file system through an AuditFs, which counts opens, closes and operations on closed handles.
+// Call Built.Cleanup when done (removes the scratch directory of an OS cell).
+func BuildFS(kind string, preload bool, limit, passes int, es []Entry, chosen []string, eof int, fsKind int) (b *Built, err error) {
+	cleanup := func() {}
 	defer func() {
 		if r := recover(); r != nil {
 			b, err = nil, fmt.Errorf("panic in constructor: %v", r)
 		}
+		if b != nil {
+			b.Cleanup = cleanup
+		} else {
+			cleanup()
+		}
 	}()
-	fs := afero.NewMemMapFs()
 	name, content := FileFor(kind, es)
 	if name == "" {
 		return nil, fmt.Errorf("unknown kind %q", kind)
 	}
+	var base afero.Fs = afero.NewMemMapFs()
+	if fsKind == FsOS {
+		dir, cl, err := scratchDir()
+		if err != nil {
+			return nil, err
+		}
+		cleanup = cl
+		base = afero.NewOsFs()
+		name = filepath.Join(dir, filepath.Base(name))
+	}
 	content = applyEOF(kind, content, eof)
-	if err := afero.WriteFile(fs, name, []byte(content), 0644); err != nil {
+	if err := afero.WriteFile(base, name, []byte(content), 0644); err != nil {
 		return nil, err
 	}
+	audit := &AuditFs{Fs: base}
+	var fs afero.Fs = audit
+	defer func() {
+		if b != nil {
+			b.Audit = audit
+		}
+	}()
 	switch kind {
 	case "uri", "uripost", "raw", "jsonl", "jsona":
 		dec := map[string]config.DecoderType{"uri": config.DecoderURI, "uripost": config.DecoderURIPost,
@@ -368,6 +403,8 @@ func ErrClass(err error) string {
 	switch {
 	case err == nil:
 		return "ok"
+	case errors.Is(err, os.ErrClosed):
+		return "err:closed" // an operation on a file that was already closed (also when joined with a context error)
 	case errors.Is(err, context.Canceled):
 		return "canceled"
 	case errors.Is(err, decoders.ErrAmmoLimit):
